@@ -78,8 +78,16 @@ def run(ck, rng):
     broken = None
     for i, (name, its, target, strict, scen, nops) in enumerate(meta):
         parts = impl[i].split("|")
+        if parts[0].split(" ")[0] in ("panic", "crash", "timeout"):
+            ck.violation({"property": ck.pid, "kind": "abnormal", "class": "abnormal|" + parts[0].split(" ")[0], "case": cases[i], "got": impl[i][-300:],
+                          "why": "the call did not return normally: " + parts[0]})
+            continue
         fsnap = parse_snap(parts[nops].split(" ")[2])          # state the verification ran against
-        r, _, snap = parts[-1].split(" ")
+        r, _, snap = fs_result(parts[-1])
+        if r in ("panic", "crash", "timeout") or len(parts) < 2:
+            ck.violation({"property": ck.pid, "kind": "abnormal", "class": "abnormal|" + r, "case": cases[i], "got": impl[i][-300:],
+                          "why": "the call did not return normally: " + r})
+            continue
         after = parse_snap(snap)
         want_paths = [tjoin(target, p) for p, _, _ in node_paths(its, [])]
         roots = [tjoin(target, p) for p, _, _ in node_paths(its, []) if b"/" not in p]
